@@ -48,6 +48,27 @@ claim("C09", "proof",
       "abstract interpretation with symbolic exponent + integer interval analysis on typed HIR",
       "DESIGN.md 5.C09")
 
+claim("C03", "proof",
+      "Static discharge of the hypotheses of the forward-mode AD induction: every primitive a generic program can call (arithmetic with dual and scalar operands, compound assignment, 24 elementary functions, powi/powf/powd, mul_add, Sum/Product) is proven to be the lifting of its real function for all 8 types; the interface is closed under the verified set (trait items and per-type overrides enumerated from the compiled program); no body of the crate touches statics, interior mutability or atomics. The induction over expression DAGs is the standard paper argument. The program-level rounding bound is NOT decided.",
+      TB + "; the paper induction (composition of liftings is the lifting of the composition)",
+      "abstract interpretation to canonical forms + interface-closure and purity rules over the typed HIR",
+      "DESIGN.md 5.C03")
+claim("C04", "proof",
+      "Static proof: chain rule, product and quotient of all 8 types are discharged against ONE formal-differentiation generator; code-vs-code sibling agreement: canonical forms of a richer type mapped through the grading homomorphism coincide with those of the poorer type (10 type pairs x chain/mul/div); NDERIV = T::NDERIV + order; re()/from_inner recurse through the inner type; 28 public aliases encode width/storage correctly; one generic impl per operation form and type constructor (static and dynamic sizes share it). Numerical agreement 'to 32-bit accuracy' is NOT decided.",
+      TB + "; Rust coherence for impl uniqueness",
+      "canonical-form comparison between sibling implementations + impl/alias table rules",
+      "DESIGN.md 5.C04")
+claim("C06", "proof",
+      "Sound dependency analysis (no cancellation, data + control dependence, all decision-tree paths) over 864 operation bodies: the real part of every result and every guard depends on operand real parts and scalar parameters only; comparison traits and predicates forward to the real part with arguments in order; min/max/clamp agree with the reference selection on all weak orderings and return operands wholesale; 58 plain-float items forward to the same-named std method. The 'few ulps' clause is NOT decided.",
+      "trusted: rustc's type checker and name resolution, the exporter, the interpreter skeleton; assumes deterministic float operations; NaN orderings excluded",
+      "abstract interpretation with a dependency-set domain over typed HIR + ordering-lattice enumeration",
+      "DESIGN.md 5.C06")
+claim("C11", "other",
+      "Static rule set: 60 RealField constants map to the FloatConst constant of the same mathematical name (table from simba's f64 impl) with zero derivative parts; 156 ComplexField forwarding items evaluate to the canonical form of the generic dual operation they stand for (log with dual base, powf/powc as powd, hypot, scale/unscale, abs-like on sign arms); argument/try_sqrt/copysign/min/max/clamp match simba's f64 reference on every sign case / weak ordering and return operands wholesale; SimdValue lane operations are part-wise with the same lane index (scalar types, vector types in all presence cases, and the container). Numeric agreement of forwarded methods is C01.",
+      TB + "; name tables of DESIGN.md A.3/A.5 (cross-checked against simba 0.9.1)",
+      "canonical-form evaluation of every trait item + reference-semantics comparison on the ordering lattice",
+      "DESIGN.md 5.C11")
+
 ALL = ["C%02d" % i for i in range(1, 19)]
 for pid in ALL:
     if pid not in CHECKS:
